@@ -67,6 +67,8 @@ class Helper(Contract):
             else:
                 v = I.fresh(p.arg)
                 ann = ast.unparse(p.annotation) if p.annotation is not None else ""
+                if ann == "str" or ann.startswith("Dict") or ann == "dict" or ann in ("list", "List[str]", "List[Dict[str, Any]]"):
+                    self.structured = getattr(self, "structured", []) + [(p.arg, v)]
                 if ann == "str":
                     I.assume(V.is_str(v))
                 elif ann.startswith("Dict") or ann == "dict":
@@ -84,10 +86,34 @@ class Helper(Contract):
         else:
             I.oblige(self.name("error_response_never_completes_the_call_normally"), z3.BoolVal(False))
 
+    def sent_unchanged(self, I):
+        """C02 (emitted requests carry what the caller gave): every str / dict / list argument of the helper is a member
+        of the request params, unchanged (same entries; for a dict the identity tag is irrelevant)"""
+        from pyvc import prelude as P
+        params = I.ghost.get("sent_params")
+        if params is None or V.ctor_name(z3.simplify(params)) != "dict":
+            return
+        keys = P.concrete_keys(z3.simplify(params))
+        if keys is None:
+            return
+        for nm, a in getattr(self, "structured", []):
+            alts = []
+            for k in keys:
+                pv = z3.simplify(z3.Select(Val.dvals(params), z3.StringVal(k)))
+                same_dict = z3.And(V.is_dict(pv), V.is_dict(a), Val.dkeys(pv) == Val.dkeys(a), Val.dvals(pv) == Val.dvals(a),
+                                   Val.dsize(pv) == Val.dsize(a))
+                alts.append(z3.Or(pv == a, same_dict))
+            # an empty dict / list / str may legitimately be normalised away or defaulted
+            nonempty = z3.Or(z3.And(V.is_dict(a), Val.dsize(a) >= 1), z3.And(V.is_list(a), z3.Length(Val.items(a)) >= 1),
+                             z3.And(V.is_str(a), z3.Length(Val.s(a)) >= 1))
+            I.oblige(self.name(f"argument_{nm}_reaches_the_request_params_unchanged"),
+                     z3.Implies(nonempty, z3.Or(alts) if alts else z3.BoolVal(False)), watch={"argument": a, "params": params})
+
     def post_exc(self, I, e):
         raised = I.ghost.get("send_message_raised")
         if raised is None:
             return            # failed before the request was issued (malformed arguments): not an error response
+        self.sent_unchanged(I)
         if self.fn in BOOL_WRAPPERS:
             I.oblige(self.name(f"boolean_wrapper_never_raises_for_an_error_response[{e.cls_name.split('.')[-1]}]"),
                      z3.BoolVal(False))
